@@ -475,7 +475,10 @@ const UNITS: &[&str] = &[
 ];
 const NONASCII: &[&str] = &["\u{e9}", "\u{4e16}", "\u{1f600}", "\u{df}", "\u{a0}", "\u{7f}", "\u{0}", "\u{2028}", "\u{feff}"];
 const CS_USER: &[&str] = &["\\a", "\\b", "\\c", "\\x", "\\y", "\\\u{e9}t\u{e9}", "\\A", "~", "\\+"];
-const FILE_NAMES: &[&str] = &["a", "b", "loop", "utf", "empty", "open", "end", "err", "missing", "a.tex", "../a", "a b", "{a}", "\u{e9}"];
+const FILE_NAMES: &[&str] = &[
+    "a", "b", "loop", "utf", "empty", "open", "end", "err", "missing", "a.tex", "../a", "a b", "{a}", "\u{e9}", "./a", "a./b", "x:a", "x>a", ":", ">", ".", "..",
+    "a.", "a.b.c", "/", "a/", "a:b.c", "a.b:c", "\u{e9}.\u{e9}", "a.t\u{e9}x", "\\relax", "a\\relax",
+];
 
 impl<'a> Gen<'a> {
     fn int_lit(&mut self) -> String {
@@ -1032,6 +1035,11 @@ impl Property for C09 {
             "\\dimen0=16383.99999pt \\dimen0=16384pt \\skip0=1pt plus 16383.999999fil ",
             "\\endlinechar=-1 a\nb\n\\endlinechar=55296 c\nd\n\\endlinechar=1114112 e\n",
             "\\endlinechar=`\u{e9} a\nb\\undefined\n",
+            "\\catcode`_=11 \\catcode 0=11 \\newInt_getter_provider_^^@=1 ",
+            "\\catcode`_=11 \\catcode 0=11 \\the\\newIntArray_getter_provider_^^@ 1 ",
+            "\\input x:a ",
+            "\\input a./b ",
+            "\\openin 1=x>a ",
         ];
         for p in progs {
             for m in MODES {
